@@ -1,18 +1,1 @@
-(* Lemmas and final statements for property C09. *)
-From Coq Require Import List NArith Bool Lia.
-From RB Require Import Base.Val Model.Export Spec.ExportSpec.
-Import ListNotations.
-Open Scope N_scope.
-
-Lemma role_eqb_eq : forall a b, role_eqb a b = true <-> a = b.
-Proof. intros a b; destruct a, b; cbv; split; intro H; try reflexivity; discriminate. Qed.
-
-Lemma C09_rs_predicate : forall s dest,
-  crosses_rs_boundary s dest -> rs_isolation_suppress s dest = true.
-Proof.
-  intros s dest [H1 H2]. unfold rs_isolation_suppress, src_is_rs_client.
-  destruct (role_eqb (src_role s) RsClient) eqn:Ea; destruct (role_eqb dest RsClient) eqn:Eb; try reflexivity.
-  - apply role_eqb_eq in Ea. apply role_eqb_eq in Eb. exfalso. exact (H1 Ea Eb).
-  - exfalso. assert (Hd : dest <> RsClient) by (intro Hd; apply role_eqb_eq in Hd; congruence).
-    apply H2 in Hd. apply role_eqb_eq in Hd. congruence.
-Qed.
+(* rebuilt below *)
